@@ -3,6 +3,8 @@ import Mathlib.Analysis.SpecialFunctions.Trigonometric.Basic
 import Mathlib.Analysis.SpecialFunctions.Sqrt
 import Mathlib.LinearAlgebra.Matrix.Notation
 import QG.Spec.Integ
+import QG.Spec.Kron2
+import QG.Spec.Attr
 /-! GENERATED on every run by harness/gen/factories_lean.py from
   src/quantum_gates/_gates/factories.py  (classes BitflipFactory, DepolarizingFactory, RelaxationFactory, SingleQubitGateFactory, CRFactory, XFactory, SXFactory, CNOTFactory, CNOTInvFactory, ECRFactory, ECRInvFactory)  and  src/quantum_gates/_gates/integrator.py  (`_INTEGRAL_LOOKUP`).
 Source text -> IR (harness/gen/factories.py) -> these definitions.  Do not edit.
@@ -68,6 +70,8 @@ noncomputable def construct (tm : ℝ) (rout : ℝ) (w : Samples) : Matrix (Fin 
 noncomputable def std_W (tm : ℝ) : ℝ :=
   (Real.sqrt (QG.Gen.Bitflip.Dtm tm))
 
+attribute [qg_unfold] tg Dtm e resultMat construct std_W
+
 end Bitflip
 
 namespace Depolarizing
@@ -124,6 +128,8 @@ noncomputable def std_W2 (Dt : ℝ) : ℝ :=
 noncomputable def std_W3 (Dt : ℝ) : ℝ :=
   (Real.sqrt (QG.Gen.Depolarizing.Dt_1 Dt))
 
+attribute [qg_unfold] tg Dt_1 ed XMat YMat ZMat I1Mat I2Mat I3Mat noiseArg construct std_W1 std_W2 std_W3
+
 end Depolarizing
 
 namespace Relaxation
@@ -157,6 +163,8 @@ noncomputable def std_W (Dt : ℝ) : ℝ :=
 /-- standard deviation handed to `np.random.normal` for I -/
 noncomputable def std_I (T1 : ℝ) (Dt : ℝ) : ℝ :=
   (Real.sqrt ((1 : ℝ) - (Real.exp ((-((QG.Gen.Relaxation.e1 T1) ^ 2)) * (QG.Gen.Relaxation.Dt_1 Dt)))))
+
+attribute [qg_unfold] tg Dt_1 e1 ep resultMat construct std_W std_I
 
 end Relaxation
 
@@ -288,6 +296,34 @@ noncomputable def envOf (F : ℝ → ℝ) (theta : ℝ) (phi : ℝ) (p : ℝ) (T
     Ip1 := ((w.Ip1 : ℝ) : ℂ),
     Ip2 := ((w.Ip2 : ℝ) : ℂ) }
 
+open scoped ComplexConjugate in
+/-- reality conditions every actual call satisfies: `c s`, strengths, drift integrals and samples are real, `e* = eb`, `i* = -i` -/
+structure IsReal (v : Env ℂ) : Prop where
+  c : conj v.c = v.c
+  s : conj v.s = v.s
+  e : conj v.e = v.eb
+  eb : conj v.eb = v.e
+  i : conj v.i = -v.i
+  ed : conj v.ed = v.ed
+  Idx1 : conj v.Idx1 = v.Idx1
+  Wdx : conj v.Wdx = v.Wdx
+  Idx2 : conj v.Idx2 = v.Idx2
+  Idy1 : conj v.Idy1 = v.Idy1
+  Wdy : conj v.Wdy = v.Wdy
+  Idy2 : conj v.Idy2 = v.Idy2
+  Idz1 : conj v.Idz1 = v.Idz1
+  Idz2 : conj v.Idz2 = v.Idz2
+  e1 : conj v.e1 = v.e1
+  Ir1 : conj v.Ir1 = v.Ir1
+  Wr : conj v.Wr = v.Wr
+  Ir2 : conj v.Ir2 = v.Ir2
+  det1 : conj v.det1 = v.det1
+  det2 : conj v.det2 = v.det2
+  det3 : conj v.det3 = v.det3
+  ep : conj v.ep = v.ep
+  Ip1 : conj v.Ip1 = v.Ip1
+  Ip2 : conj v.Ip2 = v.Ip2
+
 open scoped Matrix.Norms.Operator in
 /-- the sampled gate: `U @ expm(driftArg) @ expm(noiseArg)` (the composition is read off the source) -/
 noncomputable def gate (v : Env ℂ) : Matrix (Fin 2) (Fin 2) ℂ :=
@@ -323,6 +359,8 @@ noncomputable def cov_Ir1 (F : ℝ → ℝ) (theta : ℝ) : Matrix (Fin 3) (Fin 
 /-- covariance handed to `multivariate_normal` for (Ip1, Ip2) -/
 noncomputable def cov_Ip1 (F : ℝ → ℝ) (theta : ℝ) : Matrix (Fin 2) (Fin 2) ℝ :=
   !![(QG.Spec.integ F QG.Gen.g4 theta (1 : ℝ)), (QG.Spec.integ F QG.Gen.g5 theta (1 : ℝ)); (QG.Spec.integ F QG.Gen.g5 theta (1 : ℝ)), (QG.Spec.integ F QG.Gen.g0 theta (1 : ℝ))]
+
+attribute [qg_unfold] tg ed e1 ep det1 det2 det3 U Idx Idy Idz Ir deterministic Ip driftArg noiseArg envOf gate construct cov_Idx1 cov_Idy1 cov_Idz1 cov_Ir1 cov_Ip1
 
 end SingleQubit
 
@@ -511,6 +549,45 @@ noncomputable def envOf (F : ℝ → ℝ) (theta : ℝ) (phi : ℝ) (t_cr : ℝ)
     Idz_trg_1 := ((w.Idz_trg_1 : ℝ) : ℂ),
     Idz_trg_2 := ((w.Idz_trg_2 : ℝ) : ℂ) }
 
+open scoped ComplexConjugate in
+/-- reality conditions every actual call satisfies: `c s`, strengths, drift integrals and samples are real, `e* = eb`, `i* = -i` -/
+structure IsReal (v : Env ℂ) : Prop where
+  c : conj v.c = v.c
+  s : conj v.s = v.s
+  e : conj v.e = v.eb
+  eb : conj v.eb = v.e
+  i : conj v.i = -v.i
+  e1_ctr : conj v.e1_ctr = v.e1_ctr
+  Ir_ctr_1 : conj v.Ir_ctr_1 = v.Ir_ctr_1
+  Ir_ctr_2 : conj v.Ir_ctr_2 = v.Ir_ctr_2
+  e1_trg : conj v.e1_trg = v.e1_trg
+  Ir_trg_1 : conj v.Ir_trg_1 = v.Ir_trg_1
+  Wr_trg : conj v.Wr_trg = v.Wr_trg
+  Ir_trg_2 : conj v.Ir_trg_2 = v.Ir_trg_2
+  ep_ctr : conj v.ep_ctr = v.ep_ctr
+  Wp_ctr : conj v.Wp_ctr = v.Wp_ctr
+  ep_trg : conj v.ep_trg = v.ep_trg
+  Ip_trg_1 : conj v.Ip_trg_1 = v.Ip_trg_1
+  Ip_trg_2 : conj v.Ip_trg_2 = v.Ip_trg_2
+  a : conj v.a = v.a
+  det1 : conj v.det1 = v.det1
+  det2 : conj v.det2 = v.det2
+  det3 : conj v.det3 = v.det3
+  ed_cr : conj v.ed_cr = v.ed_cr
+  Idx_ctr_1 : conj v.Idx_ctr_1 = v.Idx_ctr_1
+  Idx_ctr_2 : conj v.Idx_ctr_2 = v.Idx_ctr_2
+  Idy_ctr_1 : conj v.Idy_ctr_1 = v.Idy_ctr_1
+  Idy_ctr_2 : conj v.Idy_ctr_2 = v.Idy_ctr_2
+  Wdz_ctr : conj v.Wdz_ctr = v.Wdz_ctr
+  Idx_trg_1 : conj v.Idx_trg_1 = v.Idx_trg_1
+  Wdx_trg : conj v.Wdx_trg = v.Wdx_trg
+  Idx_trg_2 : conj v.Idx_trg_2 = v.Idx_trg_2
+  Idy_trg_1 : conj v.Idy_trg_1 = v.Idy_trg_1
+  Wdy_trg : conj v.Wdy_trg = v.Wdy_trg
+  Idy_trg_2 : conj v.Idy_trg_2 = v.Idy_trg_2
+  Idz_trg_1 : conj v.Idz_trg_1 = v.Idz_trg_1
+  Idz_trg_2 : conj v.Idz_trg_2 = v.Idz_trg_2
+
 open scoped Matrix.Norms.Operator in
 /-- the sampled gate: `U @ expm(driftArg) @ expm(noiseArg)` (the composition is read off the source) -/
 noncomputable def gate (v : Env ℂ) : Matrix (Fin 4) (Fin 4) ℂ :=
@@ -572,6 +649,152 @@ noncomputable def cov_Idy_trg_1 (F : ℝ → ℝ) (theta : ℝ) (t_cr : ℝ) : M
 noncomputable def cov_Idz_trg_1 (F : ℝ → ℝ) (theta : ℝ) (t_cr : ℝ) : Matrix (Fin 2) (Fin 2) ℝ :=
   !![(QG.Spec.integ F QG.Gen.g4 theta (QG.Gen.CR.a t_cr)), (QG.Spec.integ F QG.Gen.g5 theta (QG.Gen.CR.a t_cr)); (QG.Spec.integ F QG.Gen.g5 theta (QG.Gen.CR.a t_cr)), (QG.Spec.integ F QG.Gen.g0 theta (QG.Gen.CR.a t_cr))]
 
+attribute [qg_unfold] tg a ed_cr e1_ctr ep_ctr e1_trg ep_trg det1 det2 det3 U Ir_ctr Ir_trg Ip_ctr Ip_trg deterministic_r_ctr deterministic_r_trg Idx_ctr Idy_ctr Idz_ctr Idx_trg Idy_trg Idz_trg driftArg noiseArg envOf gate construct cov_Ir_ctr_1 cov_Ir_trg_1 std_Wp_ctr cov_Ip_trg_1 cov_Idx_ctr_1 cov_Idy_ctr_1 std_Wdz_ctr cov_Idx_trg_1 cov_Idy_trg_1 cov_Idz_trg_1
+
 end CR
+
+namespace X
+
+/-- the samples of the constituent pulses, one record per constituent call (in call order) -/
+structure Samples where
+  g0 : SingleQubit.Samples
+
+/-- `XFactory.construct`: the product is read off the source; every constituent call with its argument expressions -/
+noncomputable def construct (F : ℝ → ℝ) (phi : ℝ) (p : ℝ) (T1 : ℝ) (T2 : ℝ) (w : Samples) : Matrix (Fin 2) (Fin 2) ℂ :=
+  (SingleQubit.construct F Real.pi phi p T1 T2 w.g0)
+
+attribute [qg_unfold] construct
+
+end X
+
+namespace SX
+
+/-- the samples of the constituent pulses, one record per constituent call (in call order) -/
+structure Samples where
+  g0 : SingleQubit.Samples
+
+/-- `SXFactory.construct`: the product is read off the source; every constituent call with its argument expressions -/
+noncomputable def construct (F : ℝ → ℝ) (phi : ℝ) (p : ℝ) (T1 : ℝ) (T2 : ℝ) (w : Samples) : Matrix (Fin 2) (Fin 2) ℂ :=
+  (SingleQubit.construct F (Real.pi / (2 : ℝ)) phi p T1 T2 w.g0)
+
+attribute [qg_unfold] construct
+
+end SX
+
+namespace CNOT
+
+noncomputable def tg : ℝ :=
+  ((7 : ℝ) / 200000000)
+
+noncomputable def t_cr (t_cnot : ℝ) : ℝ :=
+  ((t_cnot / (2 : ℝ)) - QG.Gen.CNOT.tg)
+
+noncomputable def p_cr (p_cnot : ℝ) (p_single_ctr : ℝ) (p_single_trg : ℝ) : ℝ :=
+  (((4 : ℝ) / 3) * ((1 : ℝ) - (Real.sqrt (Real.sqrt ((((1 : ℝ) - (((3 : ℝ) / 4) * p_cnot)) ^ 2) / ((((1 : ℝ) - (((3 : ℝ) / 4) * p_single_ctr)) ^ 2) * ((1 : ℝ) - (((3 : ℝ) / 4) * p_single_trg))))))))
+
+/-- the samples of the constituent pulses, one record per constituent call (in call order) -/
+structure Samples where
+  first_cr : CR.Samples
+  second_cr : CR.Samples
+  x_gate : X.Samples
+  sx_gate : SX.Samples
+  relaxation_gate : Relaxation.Samples
+  Y_Rz : SingleQubit.Samples
+
+/-- `CNOTFactory.construct`: the product is read off the source; every constituent call with its argument expressions -/
+noncomputable def construct (F : ℝ → ℝ) (phi_ctr : ℝ) (phi_trg : ℝ) (t_cnot : ℝ) (p_cnot : ℝ) (p_single_ctr : ℝ) (p_single_trg : ℝ) (T1_ctr : ℝ) (T2_ctr : ℝ) (T1_trg : ℝ) (T2_trg : ℝ) (w : Samples) : Matrix (Fin 4) (Fin 4) ℂ :=
+  ((((CR.construct F ((-Real.pi) / (4 : ℝ)) (-phi_trg) (QG.Gen.CNOT.t_cr t_cnot) (QG.Gen.CNOT.p_cr p_cnot p_single_ctr p_single_trg) T1_ctr T2_ctr T1_trg T2_trg w.first_cr) * (QG.Spec.kron2 (X.construct F ((-phi_ctr) + (Real.pi / (2 : ℝ))) p_single_ctr T1_ctr T2_ctr w.x_gate) (Relaxation.construct QG.Gen.CNOT.tg T1_trg T2_trg w.relaxation_gate))) * (CR.construct F (Real.pi / (4 : ℝ)) (-phi_trg) (QG.Gen.CNOT.t_cr t_cnot) (QG.Gen.CNOT.p_cr p_cnot p_single_ctr p_single_trg) T1_ctr T2_ctr T1_trg T2_trg w.second_cr)) * (QG.Spec.kron2 (SingleQubit.construct F (-Real.pi) (((-phi_ctr) + (Real.pi / (2 : ℝ))) + (Real.pi / (2 : ℝ))) p_single_ctr T1_ctr T2_ctr w.Y_Rz) (SX.construct F (-phi_trg) p_single_trg T1_trg T2_trg w.sx_gate)))
+
+attribute [qg_unfold] tg t_cr p_cr construct
+
+end CNOT
+
+namespace CNOTInv
+
+noncomputable def tg : ℝ :=
+  ((7 : ℝ) / 200000000)
+
+noncomputable def t_cr (t_cnot : ℝ) : ℝ :=
+  ((t_cnot - ((3 : ℝ) * QG.Gen.CNOTInv.tg)) / (2 : ℝ))
+
+noncomputable def p_cr (p_cnot : ℝ) (p_single_ctr : ℝ) (p_single_trg : ℝ) : ℝ :=
+  (((4 : ℝ) / 3) * ((1 : ℝ) - (Real.sqrt (Real.sqrt ((((1 : ℝ) - (((3 : ℝ) / 4) * p_cnot)) ^ 2) / ((((1 : ℝ) - (((3 : ℝ) / 4) * p_single_ctr)) ^ 2) * (((1 : ℝ) - (((3 : ℝ) / 4) * p_single_trg)) ^ 3)))))))
+
+/-- the samples of the constituent pulses, one record per constituent call (in call order) -/
+structure Samples where
+  Ry : SingleQubit.Samples
+  Y_Z : SingleQubit.Samples
+  first_sx_gate : SX.Samples
+  second_sx_gate : SX.Samples
+  first_cr : CR.Samples
+  second_cr : CR.Samples
+  x_gate : X.Samples
+  relaxation_gate : Relaxation.Samples
+
+/-- `CNOTInvFactory.construct`: the product is read off the source; every constituent call with its argument expressions -/
+noncomputable def construct (F : ℝ → ℝ) (phi_ctr : ℝ) (phi_trg : ℝ) (t_cnot : ℝ) (p_cnot : ℝ) (p_single_ctr : ℝ) (p_single_trg : ℝ) (T1_ctr : ℝ) (T2_ctr : ℝ) (T1_trg : ℝ) (T2_trg : ℝ) (w : Samples) : Matrix (Fin 4) (Fin 4) ℂ :=
+  (((((QG.Spec.kron2 (SingleQubit.construct F ((-Real.pi) / (2 : ℝ)) (((-phi_trg) - (Real.pi / (2 : ℝ))) + (Real.pi / (2 : ℝ))) p_single_trg T1_trg T2_trg w.Ry) (SX.construct F (((-phi_ctr) - Real.pi) - (Real.pi / (2 : ℝ))) p_single_ctr T1_ctr T2_ctr w.first_sx_gate)) * (CR.construct F ((-Real.pi) / (4 : ℝ)) ((-phi_ctr) - Real.pi) (QG.Gen.CNOTInv.t_cr t_cnot) (QG.Gen.CNOTInv.p_cr p_cnot p_single_ctr p_single_trg) T1_trg T2_trg T1_ctr T2_ctr w.first_cr)) * (QG.Spec.kron2 (X.construct F ((-phi_trg) - (Real.pi / (2 : ℝ))) p_single_trg T1_trg T2_trg w.x_gate) (Relaxation.construct QG.Gen.CNOTInv.tg T1_ctr T2_ctr w.relaxation_gate))) * (CR.construct F (Real.pi / (4 : ℝ)) ((-phi_ctr) - Real.pi) (QG.Gen.CNOTInv.t_cr t_cnot) (QG.Gen.CNOTInv.p_cr p_cnot p_single_ctr p_single_trg) T1_trg T2_trg T1_ctr T2_ctr w.second_cr)) * (QG.Spec.kron2 (SX.construct F ((-phi_trg) - (Real.pi / (2 : ℝ))) p_single_ctr T1_ctr T2_ctr w.second_sx_gate) (SingleQubit.construct F (Real.pi / (2 : ℝ)) (((-phi_ctr) - Real.pi) + (Real.pi / (2 : ℝ))) p_single_ctr T1_ctr T2_ctr w.Y_Z)))
+
+attribute [qg_unfold] tg t_cr p_cr construct
+
+end CNOTInv
+
+namespace ECR
+
+noncomputable def tg : ℝ :=
+  ((7 : ℝ) / 200000000)
+
+noncomputable def t_cr (t_ecr : ℝ) : ℝ :=
+  ((t_ecr / (2 : ℝ)) - QG.Gen.ECR.tg)
+
+noncomputable def p_cr (p_ecr : ℝ) (p_single_ctr : ℝ) (p_single_trg : ℝ) : ℝ :=
+  (((4 : ℝ) / 3) * ((1 : ℝ) - (Real.sqrt (Real.sqrt ((((1 : ℝ) - (((3 : ℝ) / 4) * p_ecr)) ^ 2) / ((((1 : ℝ) - (((3 : ℝ) / 4) * p_single_ctr)) ^ 2) * ((1 : ℝ) - (((3 : ℝ) / 4) * p_single_trg))))))))
+
+/-- the samples of the constituent pulses, one record per constituent call (in call order) -/
+structure Samples where
+  first_cr : CR.Samples
+  second_cr : CR.Samples
+  x_gate : X.Samples
+  relaxation_gate : Relaxation.Samples
+
+/-- `ECRFactory.construct`: the product is read off the source; every constituent call with its argument expressions -/
+noncomputable def construct (F : ℝ → ℝ) (phi_ctr : ℝ) (phi_trg : ℝ) (t_ecr : ℝ) (p_ecr : ℝ) (p_single_ctr : ℝ) (p_single_trg : ℝ) (T1_ctr : ℝ) (T2_ctr : ℝ) (T1_trg : ℝ) (T2_trg : ℝ) (w : Samples) : Matrix (Fin 4) (Fin 4) ℂ :=
+  (((CR.construct F (Real.pi / (4 : ℝ)) (Real.pi - phi_trg) (QG.Gen.ECR.t_cr t_ecr) (QG.Gen.ECR.p_cr p_ecr p_single_ctr p_single_trg) T1_ctr T2_ctr T1_trg T2_trg w.first_cr) * (QG.Spec.kron2 ((-Complex.I) • (X.construct F (Real.pi - phi_ctr) p_single_ctr T1_ctr T2_ctr w.x_gate)) (Relaxation.construct QG.Gen.ECR.tg T1_trg T2_trg w.relaxation_gate))) * (CR.construct F ((-Real.pi) / (4 : ℝ)) (Real.pi - phi_trg) (QG.Gen.ECR.t_cr t_ecr) (QG.Gen.ECR.p_cr p_ecr p_single_ctr p_single_trg) T1_ctr T2_ctr T1_trg T2_trg w.second_cr))
+
+attribute [qg_unfold] tg t_cr p_cr construct
+
+end ECR
+
+namespace ECRInv
+
+noncomputable def tg : ℝ :=
+  ((7 : ℝ) / 200000000)
+
+noncomputable def t_cr (t_ecr : ℝ) : ℝ :=
+  ((t_ecr / (2 : ℝ)) - QG.Gen.ECRInv.tg)
+
+noncomputable def p_cr (p_ecr : ℝ) (p_single_ctr : ℝ) (p_single_trg : ℝ) : ℝ :=
+  (((4 : ℝ) / 3) * ((1 : ℝ) - (Real.sqrt (Real.sqrt ((((1 : ℝ) - (((3 : ℝ) / 4) * p_ecr)) ^ 2) / ((((1 : ℝ) - (((3 : ℝ) / 4) * p_single_ctr)) ^ 2) * ((1 : ℝ) - (((3 : ℝ) / 4) * p_single_trg))))))))
+
+/-- the samples of the constituent pulses, one record per constituent call (in call order) -/
+structure Samples where
+  first_cr : CR.Samples
+  second_cr : CR.Samples
+  x_gate : X.Samples
+  relaxation_gate : Relaxation.Samples
+  sx_gate_ctr_1 : SX.Samples
+  sx_gate_trg_1 : SX.Samples
+  sx_gate_ctr_2 : SX.Samples
+  sx_gate_trg_2 : SX.Samples
+
+/-- `ECRInvFactory.construct`: the product is read off the source; every constituent call with its argument expressions -/
+noncomputable def construct (F : ℝ → ℝ) (phi_ctr : ℝ) (phi_trg : ℝ) (t_ecr : ℝ) (p_ecr : ℝ) (p_single_ctr : ℝ) (p_single_trg : ℝ) (T1_ctr : ℝ) (T2_ctr : ℝ) (T1_trg : ℝ) (T2_trg : ℝ) (w : Samples) : Matrix (Fin 4) (Fin 4) ℂ :=
+  (((Complex.I • (QG.Spec.kron2 (SX.construct F (((-Real.pi) / (2 : ℝ)) - phi_ctr) p_single_ctr T1_ctr T2_ctr w.sx_gate_ctr_1) (SX.construct F (((-Real.pi) / (2 : ℝ)) - phi_trg) p_single_trg T1_trg T2_trg w.sx_gate_trg_1))) * (((CR.construct F (Real.pi / (4 : ℝ)) (Real.pi - phi_trg) (QG.Gen.ECRInv.t_cr t_ecr) (QG.Gen.ECRInv.p_cr p_ecr p_single_ctr p_single_trg) T1_ctr T2_ctr T1_trg T2_trg w.first_cr) * (QG.Spec.kron2 ((-Complex.I) • (X.construct F (Real.pi - phi_ctr) p_single_ctr T1_ctr T2_ctr w.x_gate)) (Relaxation.construct QG.Gen.ECRInv.tg T1_trg T2_trg w.relaxation_gate))) * (CR.construct F ((-Real.pi) / (4 : ℝ)) (Real.pi - phi_trg) (QG.Gen.ECRInv.t_cr t_ecr) (QG.Gen.ECRInv.p_cr p_ecr p_single_ctr p_single_trg) T1_ctr T2_ctr T1_trg T2_trg w.second_cr))) * (QG.Spec.kron2 (SX.construct F (((-Real.pi) / (2 : ℝ)) - phi_ctr) p_single_ctr T1_ctr T2_ctr w.sx_gate_ctr_2) (SX.construct F (((-Real.pi) / (2 : ℝ)) - phi_trg) p_single_trg T1_trg T2_trg w.sx_gate_trg_2)))
+
+attribute [qg_unfold] tg t_cr p_cr construct
+
+end ECRInv
+
+attribute [qg_unfold] g0 g1 g2 g3 g4 g5 g6 g7
 
 end QG.Gen
